@@ -97,7 +97,7 @@ def strategy(tier):
 
 
 def n_random(tier):
-    return 80 if tier == "quick" else 5000
+    return 80 if tier == "quick" else 600
 
 
 # ----------------------------------------------------------------- queries
